@@ -134,9 +134,10 @@ theorem eq_self (q : Qty) :
     ∧ (∀ (k : SeqKind) (items : List Atom), Obj.eq ⟨q, .arr (.seq k items)⟩ ⟨q, .arr (.seq k items)⟩ = .ok true)
     ∧ (∀ (k : SeqKind) (items : List Atom) (d : Int),
         Obj.eq ⟨q, .fixed (.seq k items) d⟩ ⟨q, .fixed (.seq k items) d⟩ = .ok true) := by
-  refine ⟨fun v => by simp [Obj.eq], fun n f => by simp [Obj.eq], fun k items => ?_, fun k items d => ?_⟩
-  · simp [Obj.eq, arrayEq, pyTuple, elemsEq_refl]
-  · simp [Obj.eq, arrayEq, pyTuple, elemsEq_refl]
+  refine ⟨fun v => by simp [Obj.eq, pyEq_refl], fun n f => by simp [Obj.eq, pyEq_refl], fun k items => ?_,
+    fun k items d => ?_⟩
+  · simp [Obj.eq, arrayEq, pyTuple, elemsEq_refl, pyEq_refl]
+  · simp [Obj.eq, arrayEq, pyTuple, elemsEq_refl, pyEq_refl]
 
 /-- `o == o` is `True` as well for every Array/FixedArray whose value is a list or tuple of tuples
 (`[(100, 150), (50, 50)]`; any number of tuples of any sizes, ragged included) -/
@@ -144,8 +145,8 @@ theorem eq_self_rows (q : Qty) (k : SeqKind) (rows : List (List Atom)) :
     Obj.eq ⟨q, .arr (.rows k rows)⟩ ⟨q, .arr (.rows k rows)⟩ = .ok true
     ∧ (∀ d : Int, Obj.eq ⟨q, .fixed (.rows k rows) d⟩ ⟨q, .fixed (.rows k rows) d⟩ = .ok true) := by
   constructor
-  · simp [Obj.eq, arrayEq, pyTuple, elemsEq_refl]
-  · intro d; simp [Obj.eq, arrayEq, pyTuple, elemsEq_refl]
+  · simp [Obj.eq, arrayEq, pyTuple, elemsEq_refl, pyEq_refl]
+  · intro d; simp [Obj.eq, arrayEq, pyTuple, elemsEq_refl, pyEq_refl]
 
 /-- **`a == b` and `b == a` always give the same answer** (the same truth value, or a `TypeError`
 from `tuple(values)` on either side), for any two value objects of any classes -/
@@ -153,8 +154,8 @@ theorem eq_symm (a b : Obj) : Obj.eq a b = Obj.eq b a := by
   obtain ⟨qa, va⟩ := a
   obtain ⟨qb, vb⟩ := b
   cases va <;> cases vb <;> simp only [Obj.eq]
-  · rw [@BEq.comm _ _ _ qa qb]; rename_i x y; rw [@BEq.comm _ _ _ x y]
-  · rename_i n f m g; rw [@BEq.comm _ _ _ qa qb, @BEq.comm _ _ _ n m, @BEq.comm _ _ _ f g]
+  · rw [pyEq_symm qa qb]; rename_i x y; rw [@BEq.comm _ _ _ x y]
+  · rename_i n f m g; rw [pyEq_symm qa qb, @BEq.comm _ _ _ n m, @BEq.comm _ _ _ f g]
   · exact arrayEq_symm ..
   · rename_i v d w e; rw [arrayEq_symm, @BEq.comm _ _ _ d e]
 
@@ -436,12 +437,13 @@ theorem repr_roundtrip {db : Db} {c u : Sym} {f : Option Rat} {q : Qty} (v : Rat
   have h2 := (parseLit_quoteLit_iff (Sym.bytes q.cat)).mpr hc
   have hq' : newQuantity db (.str q.cat none) q.unit = .ok q := newQuantity_idem hq
   have hf := (forms_with_category_agree (db := db) none none .scalar (.num v) hq' rfl).1
-  simp only [reprBack, evalScalarRepr, scalarRepr, h1, h2, ofBytes_bytes]
+  have hs : q.isDerived = false := by rw [Qty.isDerived, (newQuantity_simple hq).1]; rfl
+  simp only [reprBack, hs, Bool.false_eq_true, ↓reduceIte, evalScalarRepr, scalarRepr, h1, h2, ofBytes_bytes]
   exact congrArg some (hf.trans ((create_builds db q).1 v false))
 
 /-- the hypothesis is needed: when the unit or the category does not survive the quoting, the text
 is not read back as that Scalar -/
-theorem repr_needs_plain_symbols (db : Db) (q : Qty) (v : Rat)
+theorem repr_needs_plain_symbols (db : Db) (q : Qty) (v : Rat) (hs : q.isDerived = false)
     (h : litOk q.unit = false ∨ litOk q.cat = false) :
     reprBack db ⟨q, .scalar v⟩ = some (.error .other) := by
   have key : parseLit (quoteLit (Sym.bytes q.unit)) = none ∨ parseLit (quoteLit (Sym.bytes q.cat)) = none := by
@@ -460,7 +462,7 @@ theorem repr_needs_plain_symbols (db : Db) (q : Qty) (v : Rat)
         have := parseLit_quoteLit_eq _ _ hp; subst this
         have := (parseLit_quoteLit_iff _).mp hp
         simp [litOk, this] at h
-  simp only [reprBack, evalScalarRepr, scalarRepr]
+  simp only [reprBack, hs, Bool.false_eq_true, ↓reduceIte, evalScalarRepr, scalarRepr]
   rcases key with k | k
   · rw [k]
   · rw [k]; split <;> simp_all
@@ -478,7 +480,7 @@ theorem posc_default_category_registered : ∀ r ∈ poscDb.units,
 builds the quantity (category, unit)** -/
 theorem posc_default_category_resolves : ∀ r ∈ poscDb.units,
     ∃ c, getDefaultCategory poscDb r.sym = .ok (some c) ∧ c ≠ 0
-      ∧ newQuantity poscDb (.str c none) r.sym = .ok ⟨c, r.sym⟩ := by
+      ∧ newQuantity poscDb (.str c none) r.sym = .ok (Qty.simple c r.sym) := by
   intro r hr
   obtain ⟨r', hr'⟩ := unitBySym_of_mem hr
   have hm := (unitBySym_spec hr').1
@@ -489,7 +491,7 @@ theorem posc_default_category_resolves : ∀ r ∈ poscDb.units,
 /-- **every registered category accepts its own default unit**: `Quantity(c, default_unit)` builds
 the quantity (c, default unit) -/
 theorem posc_default_unit_accepted : ∀ c ci, poscDb.catByName c = some ci →
-    newQuantity poscDb (.str c none) ci.defaultUnit = .ok ⟨c, ci.defaultUnit⟩ :=
+    newQuantity poscDb (.str c none) ci.defaultUnit = .ok (Qty.simple c ci.defaultUnit) :=
   fun _ ci hci => defaultUnitOk_spec hci (List.all_eq_true.mp poscCats_all_defunit ci (catByName_spec hci).1)
 
 /-- **no unit symbol and no category name contains a quote, a backslash or a line break** -/
@@ -503,7 +505,7 @@ theorem posc_no_quote_chars :
 /-- for every unit: the six Scalar forms build the same object for every number -/
 theorem posc_scalar_forms_equal : ∀ r ∈ poscDb.units, ∃ c, getDefaultCategory poscDb r.sym = .ok (some c) ∧
     ∀ (f g : Option Rat) (v : Rat) (i kw : Bool),
-      let q : Qty := ⟨c, r.sym⟩
+      let q : Qty := (Qty.simple c r.sym)
       let o : Obj := ⟨q, .scalar v⟩
       construct poscDb .scalar (.atom (.num v i)) (.atom (.str r.sym g)) .none = .ok o
       ∧ construct poscDb .scalar (.atom (.num v i)) (.atom (.str r.sym g)) (.str c f) = .ok o
@@ -522,7 +524,7 @@ theorem posc_scalar_forms_equal : ∀ r ∈ poscDb.units, ∃ c, getDefaultCateg
 theorem posc_scalar_forms_store_float : ∀ r ∈ poscDb.units, ∃ c, getDefaultCategory poscDb r.sym = .ok (some c) ∧
     ∀ (f g : Option Rat) (a : Atom) (v : Rat) (kw : Bool),
       (PyVal.atom a).isValueFor .scalar = true → pyFloat (.atom a) = .ok v →
-      let q : Qty := ⟨c, r.sym⟩
+      let q : Qty := (Qty.simple c r.sym)
       let o : Obj := ⟨q, .scalar v⟩
       construct poscDb .scalar (.atom a) (.atom (.str r.sym g)) .none = .ok o
       ∧ construct poscDb .scalar (.atom a) (.atom (.str r.sym g)) (.str c f) = .ok o
@@ -538,7 +540,7 @@ theorem posc_scalar_forms_store_float : ∀ r ∈ poscDb.units, ∃ c, getDefaul
 /-- for every unit: the FractionScalar forms build the same object for every number -/
 theorem posc_fraction_forms_equal : ∀ r ∈ poscDb.units, ∃ c, getDefaultCategory poscDb r.sym = .ok (some c) ∧
     ∀ (f g : Option Rat) (x : PyVal) (o : Obj) (kw : Bool),
-      let q : Qty := ⟨c, r.sym⟩
+      let q : Qty := (Qty.simple c r.sym)
       ((∃ v i, x = .atom (.num v i) ∧ o = ⟨q, .fraction v 0⟩) ∨ (∃ n fr, x = .fv n fr ∧ o = ⟨q, .fraction n fr⟩)) →
       construct poscDb .fraction x (.atom (.str r.sym g)) .none = .ok o
       ∧ construct poscDb .fraction x (.atom (.str r.sym g)) (.str c f) = .ok o
@@ -553,7 +555,7 @@ theorem posc_fraction_forms_equal : ∀ r ∈ poscDb.units, ∃ c, getDefaultCat
 /-- for every unit: the Array forms build the same object for every list/tuple/1-d array -/
 theorem posc_array_forms_equal : ∀ r ∈ poscDb.units, ∃ c, getDefaultCategory poscDb r.sym = .ok (some c) ∧
     ∀ (f g : Option Rat) (k : SeqKind) (items : List Atom) (kw : Bool),
-      let q : Qty := ⟨c, r.sym⟩
+      let q : Qty := (Qty.simple c r.sym)
       let x : PyVal := .seq k items
       let o : Obj := ⟨q, .arr x⟩
       construct poscDb .array x (.atom (.str r.sym g)) .none = .ok o
@@ -569,7 +571,7 @@ theorem posc_array_forms_equal : ∀ r ∈ poscDb.units, ∃ c, getDefaultCatego
 /-- for every unit: the FixedArray forms build the same object for every container of ≥ 2 elements -/
 theorem posc_fixed_forms_equal : ∀ r ∈ poscDb.units, ∃ c, getDefaultCategory poscDb r.sym = .ok (some c) ∧
     ∀ (f g : Option Rat) (k : SeqKind) (items : List Atom) (kw : Bool) (d' : Int), 2 ≤ items.length →
-      let q : Qty := ⟨c, r.sym⟩
+      let q : Qty := (Qty.simple c r.sym)
       let d : Int := items.length
       let x : PyVal := .seq k items
       let o : Obj := ⟨q, .fixed x d⟩
@@ -588,17 +590,17 @@ theorem posc_fixed_forms_equal : ∀ r ∈ poscDb.units, ∃ c, getDefaultCatego
 with the FixedArray dimension = number of tuples in every form -/
 theorem posc_rows_forms_equal : ∀ r ∈ poscDb.units, ∃ c, getDefaultCategory poscDb r.sym = .ok (some c) ∧
     ∀ (f g : Option Rat) (k : SeqKind) (rows : List (List Atom)) (kw : Bool) (d' : Int),
-      (construct poscDb .array (.rows k rows) (.atom (.str r.sym g)) .none = .ok ⟨⟨c, r.sym⟩, .arr (.rows k rows)⟩
-        ∧ createWithQuantity poscDb .array ⟨c, r.sym⟩ (.rows k rows) kw none = .ok ⟨⟨c, r.sym⟩, .arr (.rows k rows)⟩)
+      (construct poscDb .array (.rows k rows) (.atom (.str r.sym g)) .none = .ok ⟨(Qty.simple c r.sym), .arr (.rows k rows)⟩
+        ∧ createWithQuantity poscDb .array (Qty.simple c r.sym) (.rows k rows) kw none = .ok ⟨(Qty.simple c r.sym), .arr (.rows k rows)⟩)
       ∧ (2 ≤ rows.length →
         construct poscDb (.fixed rows.length) (.rows k rows) (.atom (.str r.sym g)) .none
-          = .ok ⟨⟨c, r.sym⟩, .fixed (.rows k rows) rows.length⟩
+          = .ok ⟨(Qty.simple c r.sym), .fixed (.rows k rows) rows.length⟩
         ∧ construct poscDb (.fixed rows.length) (.atom (.str c f)) (.rows k rows) (.str r.sym g)
-          = .ok ⟨⟨c, r.sym⟩, .fixed (.rows k rows) rows.length⟩
-        ∧ createWithQuantity poscDb (.fixed d') ⟨c, r.sym⟩ (.rows k rows) kw none
-          = .ok ⟨⟨c, r.sym⟩, .fixed (.rows k rows) rows.length⟩
-        ∧ createWithQuantity poscDb (.fixed d') ⟨c, r.sym⟩ (.rows k rows) kw (some rows.length)
-          = .ok ⟨⟨c, r.sym⟩, .fixed (.rows k rows) rows.length⟩) := by
+          = .ok ⟨(Qty.simple c r.sym), .fixed (.rows k rows) rows.length⟩
+        ∧ createWithQuantity poscDb (.fixed d') (Qty.simple c r.sym) (.rows k rows) kw none
+          = .ok ⟨(Qty.simple c r.sym), .fixed (.rows k rows) rows.length⟩
+        ∧ createWithQuantity poscDb (.fixed d') (Qty.simple c r.sym) (.rows k rows) kw (some rows.length)
+          = .ok ⟨(Qty.simple c r.sym), .fixed (.rows k rows) rows.length⟩) := by
   intro r hr
   obtain ⟨c, hc, hc0, hq⟩ := posc_default_category_resolves r hr
   refine ⟨c, hc, fun f g k rows kw d' => ?_⟩
@@ -619,7 +621,7 @@ theorem posc_forms_with_any_category_agree (c u : Sym) (q : Qty) (f g : Option R
 from its default value and default unit, for all four classes and every FixedArray dimension (every
 row of the category table is registered under its name: `catByName_of_mem`) -/
 theorem posc_category_only_eq_default : ∀ c ci, poscDb.catByName c = some ci → ∀ (f g : Option Rat),
-    let q : Qty := ⟨c, ci.defaultUnit⟩
+    let q : Qty := (Qty.simple c ci.defaultUnit)
     (construct poscDb .scalar (.atom (.str c f)) .none .none = .ok ⟨q, .scalar ci.defaultValue⟩
       ∧ construct poscDb .scalar (.num ci.defaultValue) (.atom (.str ci.defaultUnit g)) (.str c f)
           = .ok ⟨q, .scalar ci.defaultValue⟩)
